@@ -64,6 +64,8 @@ def run(snap, tier, seed, t0, replay):
             if k % 5 == 4:
                 params["third_basetype"] = True
             params["explicit_root"] = (k % 6 != 5)
+            if k % 4 == 2:
+                params["keys"]["sequence"], params["keys"]["task"] = "s\u00e9quence", "t\u00e2che"      # non-ASCII key names
         params_list.append(params)
         for sub, sa in SUBS.items():
             d = os.path.join(snap.root, "genconf_%d_%s" % (k, sub))
@@ -79,6 +81,7 @@ def run(snap, tier, seed, t0, replay):
               "configurations validated": (c.get("validated", 0), nconf * len(SUBS)),
               "renamed leaf key configurations": (sum(1 for p in params_list if p["keys"]["ext"] != "ext"), 1),
               "non-idempotent mapping configurations": (sum(1 for p in params_list if p["mapping_style"] == "swap"), 1 if nconf >= 6 else 0),
+              "configurations with non-ASCII key names": (sum(1 for p in params_list if not p["keys"]["sequence"].isascii()), 1 if nconf >= 6 else 0),
               "partial mapping table configurations": (sum(1 for p in params_list if p["mapping_style"] == "partial"), 1 if nconf >= 6 else 0)}
     for sub in SUBS:
         floors["evaluations of %s" % sub] = (c.get("evals:" + sub, 0), nconf * 100)
